@@ -354,7 +354,7 @@ def run_history(seed, prop, model, rep, length):
         for step in range(length):
             k = rng.below(100)
             if k < 30:
-                if not bulked and rng.chance(1, 10):
+                if not bulked and seed % 2 == 0 and rng.chance(1, 8):
                     bulked = True
                     tracked = rng.chance(1, 2)
                     if tracked and not h.has_ck:
@@ -519,17 +519,19 @@ def run_history(seed, prop, model, rep, length):
                 # an update without --id has nothing to record and must fail, leaving the stored
                 # checkpoint as it was; the working tree and the index are untouched, so the model
                 # sees nothing of this episode
-                r.git("checkout", "-q", "--orphan", "orphan%d" % step)
+                # (HEAD is pointed at a branch that does not exist yet; index and working tree are
+                # left exactly as they are, which `git checkout --orphan` / `checkout main` do not
+                # guarantee when something is staged)
+                r.git("symbolic-ref", "HEAD", "refs/heads/orphan%d" % step)
                 before_ck = real_ck(h.show()) if h.has_ck else None
                 args = ["checkpoint", "update"] + (["-p"] if rng.chance(1, 2) else [])
                 rc, j, out, err = r.mono(*args)
                 shown = real_ck(h.show()) if h.has_ck else None
                 showrc = h.show()
-                r.git("checkout", "-q", "main")
-                r.git("branch", "-q", "-D", "orphan%d" % step, check=False)
+                r.git("symbolic-ref", "HEAD", "refs/heads/main")
                 rep.evaluations += 1
                 rep.count("update_with_unborn_head")
-                h.log.append("git checkout --orphan; checkpoint update" + (" -p" if "-p" in args else "") + "; git checkout main")
+                h.log.append("HEAD -> unborn branch; checkpoint update" + (" -p" if "-p" in args else "") + "; HEAD -> main")
                 if rc == 0:
                     if fail("C19", "checkpoint update without --id succeeded although HEAD resolves to no commit",
                             recorded=(j or {}).get("checkpoint")):
@@ -677,7 +679,7 @@ def main():
         if "seed" in cc:
             cases.append((cc["seed"], cc.get("length", 25)))
     rng = scen.Rng(args["seed"])
-    n = (300 if args["tier"] == "thorough" else 40) * args["budget"]
+    n = (200 if args["tier"] == "thorough" else 40) * args["budget"]
     for _ in range(n):
         cases.append((rng.next(), rng.range(10, 30) if args["tier"] == "quick" else rng.range(15, 80)))
     scen.run_cases(lambda c: run_history(c[0], prop, model, rep, c[1]), cases, rep, 12)
